@@ -38,7 +38,7 @@ from collections import Counter
 
 import numpy as np
 
-LEAN_TARGETS = ["YProofs.Props.C16"]
+LEAN_TARGETS = ["YProofs.Props.C16", "YProofs.Props.C16Key"]
 LEVEL = "proof"
 TRANSLATORS = []
 DRIVER = "drv_c16"
